@@ -184,7 +184,7 @@ fn main() {
                 "{id} {}: executions/evaluations={} states={} transitions={} distinct={} capped={} wall={:.1}s new_violations={} known={}",
                 tier.name(),
                 merged.count("executions").max(merged.count("evaluations")),
-                merged.digests.len(),
+                (merged.digests.len() as u64).max(merged.count("states")),
                 merged.count("transitions"),
                 merged.outcomes.len().max(merged.count("distinct_nontrivial") as usize),
                 merged.capped,
